@@ -324,6 +324,8 @@ def suite_cli(seed, tier):
     for k_mr in range(n_mr):
         import suite_mr
         case = suite_mr.gen_mr_case(rng)
+        if case.get("names") == "samename":
+            case["names"] = "padded"        # the command takes ONE directory of *.npy files
         c = case["cfg"]
         if k_mr == 0:
             # big clusters: round-1 writes two dtype groups per file, so the next round sees
